@@ -823,7 +823,11 @@ func c15Run(c *Case) []any {
 				}()
 				<-start
 				local := map[string]bool{}
-				for it := 0; it < iters; it++ {
+				n := iters
+				if op.E == "doc_marshal" || op.E == "load_cached" {
+					n = iters / 10 // (whole-document operations: two orders of magnitude more work per call)
+				}
+				for it := 0; it < n; it++ {
 					vi := (g + it) % 3
 					v := c15Call(w, op, vi, c.Idx*2, g)
 					local[fmt.Sprintf("v%d=%s", vi, norm(v, c.Idx*2))] = true
